@@ -127,7 +127,11 @@ def r4(ctx):
     ok_only1 = bool(both) and any(fo.dominates(both[0][2], d) and term_has_call(fo.arg_origin(d, 0), VALIDATE_LEADER) == hdr[0] for d in dec)
     ok_only2 = bool(only2) and any(fo.dominates(only2[0][1], d) and term_has_call(fo.arg_origin(d, 0), VALIDATE_LEADER) == hdr[1] for d in dec)
     none_region = only2[0][2] if only2 else None
-    ok_none = none_region is not None and (any(fo.dominates(none_region, f) for f in fresh)) and any(is_agg(t, "Err") and "EmptyStorage" in term_str(t) for bb, _, t in ret_assigns(fo) if fo.dominates(none_region, bb))
+    # the EmptyStorage error is built inside the (None, None) region and is what an error return carries
+    # (it may travel through a helper's `?` before it reaches this function's return)
+    built = [b_.i for b_ in fo.live() for st in b_.stmts if st["k"] == "assign" and st["rv"]["k"] == "agg" and st["rv"].get("variant") == "EmptyStorage"]
+    ok_none = none_region is not None and (any(fo.dominates(none_region, f) for f in fresh)) and bool(built) and all(fo.dominates(none_region, b_) for b_ in built) and \
+        any(is_err_value(t, "EmptyStorage") for bb, _, t in ret_assigns(fo) for t in roots(t))
     ctx.check(P, rule, "both slots valid: a header is decoded", ok_both, "region (Some, Some) decodes a header", "no header decode under (slot1 valid, slot2 valid)", key="C07|C07.R4|both")
     ctx.check(P, rule, "only the first slot valid: it is used", ok_only1, "region (Some, None) decodes slot 1", "slot 1 alone is not used when slot 2 is invalid", key="C07|C07.R4|only first")
     ctx.check(P, rule, "only the second slot valid: it is used", ok_only2, "region (None, Some) decodes slot 2", "slot 2 alone is not used when slot 1 is invalid", key="C07|C07.R4|only second")
